@@ -1,4 +1,6 @@
-import GMProofs.Lemmas.HeapEvolve
+import GMProofs.Lemmas.HeapGeoLink
+import GMProofs.Props.C01
+import GMProofs.Props.C03
 /-
   C04 — Applying an exchange map is pure, history-independent and species-checked.
 
@@ -118,27 +120,8 @@ theorem call_refines_pure (G : Geo α F P) (h : Heap α) (E : EMap F P) (m : Nat
       (∀ g ∈ nv.gros, h.size ≤ g) ∧ poss.length = tcs.length ∧ vals.length = tcs.length ∧
       readGros (call G h E (some (.mol m))).heap nv.gros =
         some (List.zipWith (fun (n : Int) (g : AtomGroC α) => ({ g with resid := n } : AtomGroC α)) vals
-          (List.zipWith (fun (c : AtomGroC α) (p : V3 α) => ({ c with pos := p } : AtomGroC α)) tcs poss)) := by
-  have hE : ({ E with table := E.table } : EMap F P) = E := by cases E; rfl
-  obtain ⟨i1, i2, i3⟩ := call_table_irrelevant G h E (some (.mol m)) E.table []
-    (fun m' hm' => by injection hm' with hm'; injection hm' with hm'; subst hm'; exact hcov)
-  rw [hE] at i1 i2 i3
-  rw [i1, i2]
-  rw [i3] at hok
-  simp only [call] at hok ⊢
-  cases e1 : molEq h E.ref m with
-  | error e => simp [e1] at hok
-  | ok b =>
-    cases b with
-    | false => simp [e1] at hok
-    | true =>
-      simp only [e1] at hok ⊢
-      have hpt : pureTable G h m = (calcRefs G h m []).1 := rfl
-      rcases e2 : calcRefs G h m [] with ⟨tb, _ | er⟩
-      · simp only [e2] at hok ⊢
-        rw [hpt, e2]
-        exact finishCall_result G h { E with table := tb } m av l0 hav hl0 hargold hok
-      · simp [e2] at hok
+          (List.zipWith (fun (c : AtomGroC α) (p : V3 α) => ({ c with pos := p } : AtomGroC α)) tcs poss)) :=
+  call_refines_pure_core G h E m av l0 hav hl0 hargold hcov hok
 
 /-- RESULT LABELS, read off `call_refines_pure`: the returned molecule has the target's atom count
     and order, the target's residue names, atom names (and atom numbers, velocities), and the
@@ -305,6 +288,170 @@ theorem target_labels_constant (G : Geo α F P) (s0 : EState α F P) (ops : List
 
 end histories
 
+/-! ### composition with C01–C03: the concrete geometry
+
+`concreteGeo s` (`GMModel/EMapGeo.lean`) instantiates the parameter `G` with `calcule_base`,
+`_proyect_point`, `_restore_point` and `_find_closest_ref` of the numeric model
+`GMModel/ExchangeMap.lean`; it is what `gmdriver` runs for the C04 correspondence.
+`NumWF h m v cs tcs`: `m` is a well-formed molecule (`MolWF`) with AtomGro records `cs`, readable
+topology atoms `tcs` whose `index` is their position and whose bond list is sorted. -/
+
+section concrete
+
+/-- (a) THE FRAME TABLE IS `refsystemsGeneral`.  For a `NumWF` molecule of ≥ 3 atoms on which
+    `_calculate_refsystems` does not raise, the table the heap model computes from the empty table and
+    `refsystemsGeneral positions bonds` of the list model are the same finite map (same keys — the atoms
+    with ≥ 2 bonds — and the same frame under every key; only the list order differs). -/
+theorem pureTable_is_refsystems {α : Type} [Scalar α] (s : α) {h : Heap α} {m : Nat} {v : MolView}
+    {cs : List (AtomGroC α)} {tcs : List AtomTopC} (nw : NumWF h m v cs tcs) (h3 : 3 ≤ cs.length)
+    (hok : (calcRefs (concreteGeo s) h m []).2 = none) :
+    ∃ tab, refsystemsGeneral (cs.map (·.pos)) (tcs.map (·.bonds)) = some tab ∧
+      ∀ a, (pureTable (concreteGeo s) h m).lookup a = lookupFrame tab a :=
+  GMHeap.pureTable_is_refsystems s nw h3 hok
+
+/-- (b) A CALL IS `EMap.apply`.  Under the hypotheses of `call_refines_pure` (+ `Covered`), the
+    positions of the molecule returned by `call (concreteGeo s) h E (some (.mol m))` are exactly
+    `EMap.apply ⟨equiv, proj, s⟩ bonds argPos []` of `GMModel/ExchangeMap.lean`, with `equiv` / `proj`
+    the map's stored tables read in target-atom order, `bonds` / `argPos` the argument's. -/
+theorem call_is_exchange_apply {α : Type} [Scalar α] (s : α) (h : Heap α)
+    (E : GMHeap.EMap (_root_.Frame α) (V3 α)) (m : Nat)
+    {av : MolView} {acs : List (AtomGroC α)} {atcs : List AtomTopC} (nw : NumWF h m av acs atcs)
+    (h3 : 3 ≤ acs.length) (l0 : List Int) (hl0 : residsOf h av.parts = some l0)
+    (hcov : Covered (concreteGeo s) h m E.equiv)
+    (hok : (call (concreteGeo s) h E (some (.mol m))).err = none) :
+    ∃ nm nv cs' tv ttcs equivL projL,
+      (call (concreteGeo s) h E (some (.mol m))).ret = some nm ∧
+      molView (call (concreteGeo s) h E (some (.mol m))).heap nm = some nv ∧
+      readGros (call (concreteGeo s) h E (some (.mol m))).heap nv.gros = some cs' ∧
+      molView h E.tgt = some tv ∧ readTops h tv.tops = some ttcs ∧
+      ttcs.map (fun tc => E.equiv.lookup tc.index) = equivL.map some ∧
+      ttcs.map (fun tc => E.tcoords.lookup tc.index) = projL.map some ∧
+      equivL.length = projL.length ∧
+      _root_.EMap.apply (_root_.EMap.mk equivL projL s) (atcs.map (·.bonds)) (acs.map (·.pos)) [] =
+        some (cs'.map (·.pos)) :=
+  call_is_exchange_apply_aux s h E m nw h3 l0 hl0 hcov hok
+
+/-- construction on the heap is `EMap.build` of the list model (tables read in target-atom order) -/
+theorem build_is_exchange_build (s : ℝ) (h : Heap ℝ) (ref tgt : Nat)
+    (E : GMHeap.EMap (_root_.Frame ℝ) (V3 ℝ)) (hb : build (concreteGeo s) h ref tgt = (E, none))
+    {rv : MolView} {rcs : List (AtomGroC ℝ)} {rtcs : List AtomTopC} (nwr : NumWF h ref rv rcs rtcs)
+    (h3 : 3 ≤ rcs.length)
+    {tv : MolView} {tcs : List (AtomGroC ℝ)} {ttcs : List AtomTopC} (nwt : NumWF h tgt tv tcs ttcs) :
+    ∃ m : _root_.EMap ℝ,
+      _root_.EMap.build (rcs.map (·.pos)) (rtcs.map (·.bonds)) [] (tcs.map (·.pos)) s = some m ∧
+      ttcs.map (fun tc => E.equiv.lookup tc.index) = m.equiv.map some ∧
+      ttcs.map (fun tc => E.tcoords.lookup tc.index) = m.proj.map some ∧ m.scale = s :=
+  GMHeap.build_is_exchange_build s h ref tgt E hb nwr h3 nwt
+
+/-- (c) ANCHOR-AND-SCALE ON THE HEAP (C04 ∘ C01/C03).  A map is constructed on the heap
+    (`build`, = `ExchangeMap(ref, tgt, s)`) from a `NumWF` reference of ≥ 3 atoms with `DistinctFrames`
+    and a `NumWF` target.  After ANY history `ops` of calls (accepted or rejected) and coordinate
+    assignments / copies / views (`CoordOp`) it is called on a `NumWF` molecule `m` that has the
+    reference's bond lists (`hbonds`) and `DistinctFrames`, and the call returns normally.  Then the
+    returned molecule places target atom `j` (construction position `t`) at distance exactly
+    `|s| · ‖t − pa‖` from the ARGUMENT's position `pa'` of the anchor `a`, where `a` is the reference
+    atom with ≥ 2 bonds closest to `t` at construction (ties → lowest index) and `pa` its construction
+    position; and if the argument is in the construction conformation, at `pa + s (t − pa)` exactly. -/
+theorem call_anchor_scale (s : ℝ) (s0 : EState ℝ (_root_.Frame ℝ) (V3 ℝ)) (ref tgt : Nat)
+    (hb : build (concreteGeo s) s0.heap ref tgt = (s0.emap, none))
+    {rv : MolView} {rcs : List (AtomGroC ℝ)} {rtcs : List AtomTopC}
+    (nwr : NumWF s0.heap ref rv rcs rtcs) (h3 : 3 ≤ rcs.length)
+    (hdr : DistinctFrames (rcs.map (·.pos)) (rtcs.map (·.bonds)))
+    {tv : MolView} {tcs : List (AtomGroC ℝ)} {ttcs : List AtomTopC} (nwt : NumWF s0.heap tgt tv tcs ttcs)
+    (ops : List (EOp ℝ)) (hops : ∀ op ∈ ops, CoordOp op) (m : Nat)
+    {av : MolView} {acs : List (AtomGroC ℝ)} {atcs : List AtomTopC}
+    (nwa : NumWF (erun (concreteGeo s) s0 ops).heap m av acs atcs)
+    (hbonds : atcs.map (·.bonds) = rtcs.map (·.bonds)) (hlen : acs.length = rcs.length)
+    (hda : DistinctFrames (acs.map (·.pos)) (atcs.map (·.bonds)))
+    (l0 : List Int) (hl0 : residsOf (erun (concreteGeo s) s0 ops).heap av.parts = some l0)
+    (hok : (call (concreteGeo s) (erun (concreteGeo s) s0 ops).heap (erun (concreteGeo s) s0 ops).emap
+      (some (.mol m))).err = none) :
+    let r := call (concreteGeo s) (erun (concreteGeo s) s0 ops).heap (erun (concreteGeo s) s0 ops).emap
+      (some (.mol m))
+    ∃ nm nv cs', r.ret = some nm ∧ molView r.heap nm = some nv ∧ readGros r.heap nv.gros = some cs' ∧
+      ∀ (j : Nat) (t : V3 ℝ), (tcs.map (·.pos))[j]? = some t →
+        ∃ (a : Nat) (pa pa' o : V3 ℝ),
+          closestAnchor (rcs.map (·.pos)) (anchorsOf (rtcs.map (·.bonds))) t = some a ∧
+          (rcs.map (·.pos))[a]? = some pa ∧ (acs.map (·.pos))[a]? = some pa' ∧
+          (cs'.map (·.pos))[j]? = some o ∧
+          V3.norm (o - pa') = |s| * V3.norm (t - pa) ∧
+          (acs.map (·.pos) = rcs.map (·.pos) → o = pa + V3.smul s (t - pa)) := by
+  intro r
+  have h3a : 3 ≤ acs.length := by omega
+  -- the list-model map of the construction
+  obtain ⟨mm, hmb, hme, hmp, hms⟩ := GMHeap.build_is_exchange_build s s0.heap ref tgt s0.emap hb nwr h3 nwt
+  obtain ⟨_, htgt, _⟩ := build_equiv_anchors _ s0.heap ref tgt s0.emap hb
+  -- state after the history: construction data and target labels are those of the construction
+  obtain ⟨_, c2, c3, c4⟩ := construction_data_constant (concreteGeo s) s0 ops
+  obtain ⟨tl1, tcsS, ttcsS, _, _, tl4, tl5⟩ := target_labels_constant (concreteGeo s) s0 ops hops tv tcs ttcs
+    (htgt ▸ nwt.wf.view) (nwt.wf.cells) (nwt.tops)
+  have hcr := call_ok_calcRefs _ _ _ m hok
+  have hcov : Covered (concreteGeo s) (erun (concreteGeo s) s0 ops).heap m
+      (erun (concreteGeo s) s0 ops).emap.equiv := by
+    rw [c3]
+    exact covered_of_same_bonds s hb nwr h3 nwa h3a hbonds hcr
+  obtain ⟨nm, nv, cs', tv', ttcs', el, pl, r1, r2, r3, r4, r5, r6, r7, _, r9⟩ :=
+    call_is_exchange_apply_aux s _ _ m nwa h3a l0 hl0 hcov hok
+  -- the target seen by the call is the construction target (same cells, same indices)
+  rw [c2, tl1] at r4
+  injection r4 with r4
+  subst r4
+  rw [tl4] at r5
+  injection r5 with r5
+  subst r5
+  have hidx : ttcsS.map (·.index) = ttcs.map (·.index) := by
+    have := congrArg (List.map (fun x : String × String × Nat × List Nat => x.2.2.1)) tl5
+    rw [List.map_map, List.map_map] at this
+    exact this
+  have hel : el = mm.equiv := by
+    have e1 : ttcsS.map (fun tc => s0.emap.equiv.lookup tc.index) =
+        ttcs.map (fun tc => s0.emap.equiv.lookup tc.index) := by
+      have := congrArg (List.map (fun i => s0.emap.equiv.lookup i)) hidx
+      rw [List.map_map, List.map_map] at this
+      exact this
+    rw [c3, e1, hme] at r6
+    exact (List.map_injective_iff.mpr (Option.some_injective _) r6).symm
+  have hpl : pl = mm.proj := by
+    have e1 : ttcsS.map (fun tc => s0.emap.tcoords.lookup tc.index) =
+        ttcs.map (fun tc => s0.emap.tcoords.lookup tc.index) := by
+      have := congrArg (List.map (fun i => s0.emap.tcoords.lookup i)) hidx
+      rw [List.map_map, List.map_map] at this
+      exact this
+    rw [c4, e1, hmp] at r7
+    exact (List.map_injective_iff.mpr (Option.some_injective _) r7).symm
+  have hmm : _root_.EMap.mk el pl s = mm := by
+    subst hel; subst hpl; subst hms; cases mm; rfl
+  rw [hmm, hbonds] at r9
+  refine ⟨nm, nv, cs', r1, r2, r3, ?_⟩
+  intro j t ht
+  have h3p : 3 ≤ (rcs.map (·.pos)).length := by simpa using h3
+  have h3q : 3 ≤ (acs.map (·.pos)).length := by simpa using h3a
+  obtain ⟨a, pa, pa', o, q1, q2, q3, q4, q5⟩ :=
+    C03.exchange_anchor_distance _ _ _ [] [] _ s h3p h3q hdr (hbonds ▸ hda) mm hmb _ r9 j t ht
+  -- the anchor is the closest anchor of the construction
+  obtain ⟨tab, htab, _, hbs⟩ := build_spec hmb
+  rw [refsystems_general _ _ h3p] at htab
+  obtain ⟨a', F, hja, hca, _, _⟩ := hbs j t ht
+  rw [q1] at hja
+  injection hja with hja
+  subst hja
+  rw [refsystemsGeneral_keys htab] at hca
+  refine ⟨a, pa, pa', o, hca, q2, q3, q4, q5, ?_⟩
+  intro hsame
+  rw [hsame] at r9
+  obtain ⟨a2, pa2, u1, _, u3, u4⟩ :=
+    C01.exchange_anchor_scale _ _ [] [] _ s h3p hdr mm hmb _ r9 j t ht
+  rw [q1] at u1
+  injection u1 with u1
+  subst u1
+  rw [q2] at u3
+  injection u3 with u3
+  subst u3
+  rw [q4] at u4
+  injection u4
+
+end concrete
+
 /-! ### non-vacuity: a concrete map, an accepted call, a rejected call, and the O5 observation -/
 
 namespace NonVacuity
@@ -377,6 +524,82 @@ example : (call G0 hp E0 (some (.mol 22))).err = some .typeError ∧
     coverage hypothesis of `call_history_independent` fails for it. -/
 example : (molEq hp E0.ref 48).toOption = some true ∧ anchorKeys hp 48 = [0] ∧ anchorKeys hp 12 = [1] := by
   decide
+
+/-! #### the composition theorems over ℝ: a bent 3-atom reference chain `.mol 12`, a 2-atom target
+`.mol 22`, an argument of the species in another conformation `.mol 35`; scale 1/2; history = a
+rejected call, then the TARGET is moved.  All hypotheses of `call_anchor_scale` are met (the
+control flow of `build` / `call` does not depend on real comparisons here, so `rfl` evaluates it). -/
+
+def gR (resid : Int) (rn n : String) (id : Int) (x y z : ℝ) : AtomGroC ℝ :=
+  ⟨resid, rn, n, id, ⟨x, y, z⟩, none⟩
+
+noncomputable def hR : Heap ℝ :=
+  (newMol (newMol (newMol (Heap.empty : Heap ℝ) "REF" chain
+      [[gR 1 "RA" "A0" 1 0 0 0, gR 1 "RA" "A1" 2 1 0 0, gR 1 "RA" "A2" 3 1 1 0]]).heap
+    "TGT" [⟨"B0", "RB", 1, 0, [1]⟩, ⟨"B1", "RB", 1, 1, [0]⟩]
+      [[gR 1 "RB" "B0" 1 0 0 1, gR 1 "RB" "B1" 2 1 1 1]]).heap
+    "REF" chain [[gR 5 "RA" "A0" 7 4 0 0, gR 5 "RA" "A1" 8 5 0 0, gR 5 "RA" "A2" 9 5 2 0]]).heap
+
+noncomputable def ER : GMHeap.EMap (_root_.Frame ℝ) (V3 ℝ) := (build (concreteGeo (1 / 2 : ℝ)) hR 12 22).1
+
+noncomputable def sR : EState ℝ (_root_.Frame ℝ) (V3 ℝ) := ⟨hR, [.mol 12, .mol 22, .mol 35], ER⟩
+
+noncomputable def opsR : List (EOp ℝ) := [.callOther, .op (.move 1 ⟨1, 2, 3⟩)]
+
+theorem buildR_ok : build (concreteGeo (1 / 2 : ℝ)) sR.heap 12 22 = (sR.emap, none) := Prod.ext rfl rfl
+
+private theorem chain_index : ∀ (i : Nat) (tc : AtomTopC), chain[i]? = some tc → tc.index = i := by
+  intro i tc h
+  match i, h with
+  | 0, h => simp [chain] at h; subst h; rfl
+  | 1, h => simp [chain] at h; subst h; rfl
+  | 2, h => simp [chain] at h; subst h; rfl
+  | (n + 3), h => simp [chain] at h
+
+private theorem chain_distinct (p0 p1 p2 : V3 ℝ) (hne : p1 ≠ p2) :
+    DistinctFrames [p0, p1, p2] (chain.map (·.bonds)) := by
+  intro a pa nb i1 i2 q2 hpa hnb hc hq2
+  match a, hnb with
+  | 0, h => simp [chain] at h; subst h; simp [closestTwo, sortNat, insertSorted] at hc
+  | 1, h =>
+    simp [chain] at h; subst h
+    simp [closestTwo, sortNat, insertSorted] at hc
+    obtain ⟨rfl, rfl⟩ := hc
+    simp at hpa hq2; subst hpa; subst hq2
+    exact hne
+  | 2, h => simp [chain] at h; subst h; simp [closestTwo, sortNat, insertSorted] at hc
+  | (n + 3), h => simp [chain] at h
+
+theorem refR_wf : NumWF sR.heap 12 ⟨3, "REF", [0, 1, 2], [11], [0, 0, 0], [[8, 9, 10]], [8, 9, 10]⟩
+    [gR 1 "RA" "A0" 1 0 0 0, gR 1 "RA" "A1" 2 1 0 0, gR 1 "RA" "A2" 3 1 1 0] chain :=
+  ⟨⟨rfl, rfl, rfl, by decide, rfl⟩, rfl, chain_index, by decide⟩
+
+theorem tgtR_wf : NumWF sR.heap 22 ⟨15, "TGT", [13, 14], [21], [0, 0], [[19, 20]], [19, 20]⟩
+    [gR 1 "RB" "B0" 1 0 0 1, gR 1 "RB" "B1" 2 1 1 1]
+    [⟨"B0", "RB", 1, 0, [1]⟩, ⟨"B1", "RB", 1, 1, [0]⟩] := by
+  refine ⟨⟨rfl, rfl, rfl, by decide, rfl⟩, rfl, ?_, by decide⟩
+  intro i tc h
+  match i, h with
+  | 0, h => simp at h; subst h; rfl
+  | 1, h => simp at h; subst h; rfl
+  | (n + 2), h => simp at h
+
+theorem argR_wf : NumWF (erun (concreteGeo (1 / 2 : ℝ)) sR opsR).heap 35
+    ⟨26, "REF", [23, 24, 25], [34], [0, 0, 0], [[31, 32, 33]], [31, 32, 33]⟩
+    [gR 5 "RA" "A0" 7 4 0 0, gR 5 "RA" "A1" 8 5 0 0, gR 5 "RA" "A2" 9 5 2 0] chain :=
+  ⟨⟨rfl, rfl, rfl, by decide, rfl⟩, rfl, chain_index, by decide⟩
+
+/-- `call_anchor_scale` applies: after the history the returned molecule has its two atoms at
+    distance `|1/2| · ‖t_j − (1,0,0)‖` from the argument's anchor position `(5,0,0)` -/
+example := call_anchor_scale (1 / 2) sR 12 22 buildR_ok refR_wf (by decide)
+  (chain_distinct _ _ _ (by intro e; have := congrArg V3.y e; simp [gR] at this)) tgtR_wf opsR
+  (by intro op h; simp only [opsR, List.mem_cons, List.not_mem_nil, or_false] at h
+      rcases h with rfl | rfl <;> trivial)
+  35 argR_wf rfl rfl
+  (chain_distinct _ _ _ (by intro e; have := congrArg V3.y e; simp [gR] at this)) [5] rfl rfl
+
+/-- hypotheses of (a) and (b) on the same heap -/
+example := C04.pureTable_is_refsystems (1 / 2 : ℝ) refR_wf (by decide) rfl
 
 end NonVacuity
 
